@@ -167,6 +167,30 @@ func gateArrive(key string, d time.Duration) *ticket {
 	}
 }
 
+// gateArriveAny waits for an arrival at any of the keys.
+func gateArriveAny(keys []string, d time.Duration) *ticket {
+	hk.mu.Lock()
+	var gs []*gate
+	for _, k := range keys {
+		if g := hk.gates[k]; g != nil {
+			gs = append(gs, g)
+		}
+	}
+	hk.mu.Unlock()
+	deadline := time.Now().Add(d)
+	for time.Now().Before(deadline) {
+		for _, g := range gs {
+			select {
+			case t := <-g.arrivals:
+				return t
+			default:
+			}
+		}
+		time.Sleep(100 * time.Microsecond)
+	}
+	return nil
+}
+
 func (t *ticket) letGo() {
 	if t != nil {
 		close(t.release)
